@@ -3,8 +3,24 @@
   Theorems about the model `MitmVerif.C53` (Model/C53.lean) for EVERY history of replay submissions,
   stop commands, user edits, playback-loop steps and replay completions (`Reach attrs fs s`: `s` is
   reached from the idle addon holding flows `attrs`/`fs` by some list of operations).
-  "every replayed flow ends with a response or an error" is a liveness claim: explored by the harness,
-  not proved (see level_note).
+  "every replayed flow ends with a response or an error" is a liveness claim.  What is PROVED, about the model and
+  under an explicit fairness hypothesis (the history continues with playback-loop / server operations until no
+  terminal event is enabled): a variant decreases on every such operation (`replay_variant_decreases`,
+  `replay_run_bounded`), a terminal event is always enabled while work is left (`terminal_event_enabled`), a
+  completing continuation EXISTS and is short (`fair_completion_exists`), and at an idle end every started replay has
+  its `fin` (`every_replay_completes`, `all_started_replays_complete` — by `terminal_event_enabled` their hypothesis
+  says "the end state is quiescent", and their conclusion is the log invariant read there).  What is NOT proved: that
+  the real ReplayHandler turns every server outcome into a response/error hook — that is explored by the harness
+  (winddown of every script, oracle clauses), see level_note.
+
+  Tie conditions.  Some theorems carry a hypothesis their proof does not use (`_hnot : stopBlocked s = false`,
+  `_hloop : ∀ o ∈ os, isLoopOp o = true`).  They are not what makes the statement true — it holds for the model
+  function in every state — but what makes it a statement about mitmproxy: in a blocked state `step s .stop = none`,
+  the driver never runs `stopReplay` there and the real code is outside the model (F-C53b/c); and only for histories
+  of loop/server operations is "the end state enables no terminal event" the fairness hypothesis meant here.
+
+  "Unreplayable" in `unreplayable_never_queued` is read at the time of queueing (`check` is evaluated by
+  `start_replay`): a flow already queued can become live later (a replay of it starts) and stay in the queue.
 -/
 import MitmVerif.Lemmas.C53
 namespace MitmVerif.Props.C53
@@ -43,7 +59,8 @@ def StopRestoresQueued (s : St) : Prop :=
     (a user edit, or an earlier replay that finished): known finding F-C53a — and stop while a still-queued
     flow is also the one in flight (`stopBlocked`, known finding F-C53b), where the code is outside the model. -/
 theorem stop_restores_queued_partial {attrs : List Attr} {fs : List FState} {s : St} (h : Reach attrs fs s)
-    (_hnot : stopBlocked s = false) :
+    (_hnot : stopBlocked s = false)   -- tie condition (unused in the proof): only then does `step s .stop` run `stopReplay`
+    :
     ∀ e ∈ s.queue, e.fresh = true → ((stopReplay s).fs[e.idx]?).map (·.cur) = some e.pre := by
   intro e he hf
   obtain ⟨f, hfs, hb⟩ := (Reach.inv h).back e he hf
@@ -53,7 +70,8 @@ theorem stop_restores_queued_partial {attrs : List Attr} {fs : List FState} {s :
     since it was queued (`bk`) — its pre-replay state if it had no backup then (`fresh_backup_is_pre`), the older
     backup otherwise.  This is exactly what the code does, F-C53a included: the model predicts the wrong outcome. -/
 theorem stop_restores_backup {attrs : List Attr} {fs : List FState} {s : St} (h : Reach attrs fs s)
-    (_hnot : stopBlocked s = false) :
+    (_hnot : stopBlocked s = false)   -- tie condition (unused in the proof): only then does `step s .stop` run `stopReplay`
+    :
     ∀ e ∈ s.queue, ((stopReplay s).fs[e.idx]?).map (·.cur) = some e.bk := by
   intro e he
   obtain ⟨f, hfs, hb⟩ := (Reach.inv h).bk e he
